@@ -262,3 +262,17 @@ func WaitUntil(watchdog time.Duration, cond func() bool) bool {
 		}
 	}
 }
+
+// Await decides a positive expectation: it polls cond for up to
+// `patience`; if the expectation is still unmet it waits for quiescence
+// and evaluates cond once more (on a slow machine the expectation may be
+// met late, which is not a violation). met=false with quiescent=true is
+// the only outcome that proves the expectation can never be met;
+// met=false with quiescent=false is inconclusive.
+func Await(patience, watchdog time.Duration, cond func() bool) (met, quiescent bool, c Census) {
+	if WaitUntil(patience, cond) {
+		return true, false, Census{}
+	}
+	c, quiescent = Quiesce(watchdog)
+	return cond(), quiescent, c
+}
